@@ -5,6 +5,7 @@ pub mod combi;
 pub mod ctors;
 pub mod pbwire;
 pub mod refmodel;
+pub mod statespace;
 pub mod textparse;
 pub mod vsched;
 
@@ -90,6 +91,8 @@ pub struct Report {
     pub states: u64,
     pub traces: u64,
     pub outcomes: BTreeSet<String>,
+    /// distinct outcomes counted by an engine itself (e.g. unique states), added to `outcomes.len()`
+    pub distinct_extra: u64,
     pub rule: String,
     pub samples: Vec<Value>,
     pub exhaustive: bool,
@@ -115,6 +118,7 @@ impl Report {
             states: 0,
             traces: 0,
             outcomes: BTreeSet::new(),
+            distinct_extra: 0,
             rule: String::new(),
             samples: vec![],
             exhaustive: true,
@@ -167,6 +171,7 @@ impl Report {
         self.states += other.states;
         self.traces += other.traces;
         self.outcomes.extend(other.outcomes);
+        self.distinct_extra += other.distinct_extra;
         for s in other.samples {
             self.sample(s);
         }
@@ -224,7 +229,7 @@ impl Report {
         if self.samples.is_empty() {
             self.samples.push(json!("(no sample recorded)"));
         }
-        let distinct = self.outcomes.len() as u64;
+        let distinct = self.outcomes.len() as u64 + self.distinct_extra;
         let mut coverage = json!({
             "states": self.states.max(1),
             "transitions": self.transitions.max(1),
